@@ -44,6 +44,14 @@ fn streams(n: usize, both: bool) -> Vec<StreamSpec> {
             opener_plan: EndPlan::Bridged(4, vec![Op::Burst(n.min(12), 2), Op::Shutdown, Op::ReadToEof(8)]),
             acceptor_plan: EndPlan::Bridged(4, vec![Op::ReadToEof(3), Op::Burst(3, 1), Op::Shutdown]),
         },
+        // a bridged end whose application half-closes first while the peer keeps talking WITHOUT finishing: what the
+        // peer writes must still reach the local application (nothing may sit in a buffer waiting for the end)
+        StreamSpec {
+            tag: 5,
+            opener: 0,
+            opener_plan: EndPlan::Bridged(8, vec![Op::W(1), Op::Shutdown, Op::ReadN(3, 1)]),
+            acceptor_plan: EndPlan::Seq(vec![Op::ReadToEof(8), Op::W(3), Op::Park]),
+        },
         // a late stream request that must still be served, opened by the other side
         StreamSpec {
             tag: 3,
@@ -57,7 +65,7 @@ fn streams(n: usize, both: bool) -> Vec<StreamSpec> {
 pub fn run(args: &Args) -> Report {
     let mut rep = Report::new("C04", &args.tier, "psim", "model_checking");
     let thorough = args.thorough();
-    let or = Oracles { integrity: true, credit: false, progress: true, allow_pending_prefixes: &["s2.", "dgecho"] };
+    let or = Oracles { integrity: true, credit: false, progress: true, allow_pending_prefixes: &["s2.", "dgecho", "s5.b", "s5.a.bridge"] };
     let rw = [1u32, 2, 3, 4, 16];
     let th = [1u32, 2, 3, 4, 8, 32];
     let mut cfgs: Vec<((u32, u32), (u32, u32))> = Vec::new();
